@@ -234,7 +234,14 @@ fn emit_hist(ctx: &mut Ctx, spec: &HistSpec) {
         let rused = pr.qubit_set(rebuilt.get_used_qubits());
         let eq = p == rebuilt;
         let new = pr.take_new();
-        (h, tagged("out", vec![new, tagged("trace", trace.unwrap()), tagged("rused", vec![rused]), tagged("eq", vec![boolean(eq)])]))
+        let calq = nat(pr.cal_qubit_mismatches);
+        (
+            h,
+            tagged(
+                "out",
+                vec![new, tagged("trace", trace.unwrap()), tagged("rused", vec![rused]), tagged("eq", vec![boolean(eq)]), tagged("calq", vec![calq])],
+            ),
+        )
     }));
     match r {
         Ok((h, out)) => ctx.case(tagged("hist", vec![h]), move || out),
